@@ -292,7 +292,10 @@ class Built:
         return WithDefaultOptions(body, copy.deepcopy(n["opts"]))
 
     def n_cached(self, n):
-        c = cached(self.node(n["body"]))
+        if self.cache_factory is not None:
+            c = cached(self.node(n["body"]), self.cache_factory(f"cached#{len(self.cached_nodes)}"))
+        else:
+            c = cached(self.node(n["body"]))
         self.cached_nodes.append(c)
         return c
 
